@@ -219,3 +219,23 @@ Definition crash_consistent (fk : bytes) (recs : list flush_rec) (k : nat) (w : 
                    end
   | _ => True     (* dirty / not synced / non-initialised is reported *)
   end.
+
+(* The same with "the flush in progress" allowed: the record completed at or before k, or it is the
+   first record of the history to complete after k. *)
+Definition rec_at (recs : list flush_rec) (k : nat) (rc : flush_rec) : Prop :=
+  (r_pos rc <= k)%nat \/
+  ((k < r_pos rc)%nat /\ forall rc', In rc' recs -> (k < r_pos rc')%nat -> (r_pos rc <= r_pos rc')%nat).
+
+Definition crash_consistent_ip (fk : bytes) (recs : list flush_rec) (k : nat) (w : world)
+                               (l : list (name * db)) : Prop :=
+  match check_synced fk l with
+  | COk None => forall n c, wget n w = Some c -> db_empty c
+  | COk (Some m) =>
+      exists rc, In rc recs /\ rec_at recs k rc /\ m = mark_of CLEAN (r_id rc) /\
+                 forall n c, wget n w = Some c ->
+                   match wget n (r_snap rc) with
+                   | Some s => db_eq c s
+                   | None => db_empty c
+                   end
+  | _ => True
+  end.
